@@ -24,10 +24,10 @@ package codec
 
 import (
 	"bytes"
-	"crypto/subtle"
+	"encoding/binary"
 	"encoding/hex"
 	"fmt"
-	"hash/fnv"
+	"hash/maphash"
 	"math"
 	"reflect"
 	"sort"
@@ -215,11 +215,7 @@ func c12Str(v C12Val) string {
 
 func c12Bytes(v C12Val) []byte {
 	if v.R > 1 {
-		out := make([]byte, 0, len(v.X)*v.R)
-		for i := 0; i < v.R; i++ {
-			out = append(out, v.X...)
-		}
-		return out
+		return bytes.Repeat(v.X, v.R)
 	}
 	if v.X == nil {
 		return nil
@@ -482,6 +478,12 @@ func (st *c12Stats) long(n int, ctx string) {
 	if n >= 65535 {
 		st.longBy["len>=65535:"+ctx] = true
 	}
+	if n >= 1<<21 {
+		st.longBy["len>=2MiB:"+ctx] = true
+		if n&0x1FC000 != 0 {
+			st.longBy["len>=2MiB_not_power_of_two"] = true
+		}
+	}
 }
 
 // ctx: "scalar", "repeated", "mapkey", "mapvalue"
@@ -551,6 +553,9 @@ func c12Walk(md protoreflect.MessageDescriptor, tree *C12Msg, depth int, st *c12
 		st.unkWire[u.W] = true
 		if u.W == "bytes" && len(u.X)*max(u.R, 1) >= 128 {
 			st.unkLong++
+		}
+		if u.W == "bytes" {
+			st.long(len(u.X)*max(u.R, 1), "unknown")
 		}
 		if u.Num == 536870911 {
 			st.unkMaxNum++
@@ -974,13 +979,16 @@ func c12Judge(m, want proto.Message, ty c12Type, vtFirst, noMemo bool) (verdict 
 
 var c12IndepDone = map[uint64]struct{}{}
 
+var c12IndepSeed = maphash.MakeSeed() // the memo lives and dies with the process
+
 func c12IndepKey(ty c12Type, b []byte, useVT bool) uint64 {
-	h := fnv.New64a()
-	h.Write([]byte(ty.md.FullName()))
+	var h maphash.Hash
+	h.SetSeed(c12IndepSeed)
+	h.WriteString(string(ty.md.FullName()))
 	if useVT {
-		h.Write([]byte{1})
+		h.WriteByte(1)
 	} else {
-		h.Write([]byte{0})
+		h.WriteByte(0)
 	}
 	h.Write(b)
 	return h.Sum64()
@@ -1001,14 +1009,16 @@ func c12IndepSeen(ty c12Type, b []byte, useVT, mark bool) bool {
 	return ok
 }
 
-var c12Ones []byte
-
-// c12Invert XORs every byte of b with 0xFF.
+// c12Invert XORs every byte of b with 0xFF (no shared scratch buffer: the two C12 tests
+// run in parallel).
 func c12Invert(b []byte) {
-	if len(c12Ones) < len(b) {
-		c12Ones = bytes.Repeat([]byte{0xFF}, len(b)+len(b)/2+64)
+	i := 0
+	for ; i+8 <= len(b); i += 8 {
+		binary.LittleEndian.PutUint64(b[i:], ^binary.LittleEndian.Uint64(b[i:]))
 	}
-	subtle.XORBytes(b, b, c12Ones[:len(b)])
+	for ; i < len(b); i++ {
+		b[i] ^= 0xFF
+	}
 }
 
 func runC12(c C12Case) ev.Outcome {
